@@ -469,3 +469,7 @@ def same_path_set(R, P):
     r = [tuple(int(x) for x in p) for p in R]
     q = [tuple(int(x) for x in p) for p in P]
     return len(r) == len(set(r)) and set(r) == set(q) and len(r) == len(q)
+
+
+def global_is(g):
+    return True
